@@ -358,7 +358,7 @@ func (l *RotateLogger) rotate() error {
 
 	// 记录备份文件并创建新的日志文件
 	l.backup = l.rule.BackupFilename()
-	if _, err = os.Create(l.filename); err == nil {
+	if l.fp, err = os.Create(l.filename); err == nil {
 		fs.CloseOnExec(l.fp)
 	}
 
